@@ -372,12 +372,12 @@ where
     }
 }
 
-fn toy_bfs<C: ToyCurve>(ctx: &Ctx, depth: Option<usize>)
+fn toy_bfs<C: ToyCurve>(ctx: &Ctx, depth: Option<usize>, nregs: usize)
 where
     C::P: Send + Sync,
     C::F: Send + Sync,
 {
-    let sub = format!("{}.regfile_bfs", C::NAME);
+    let sub = format!("{}.regfile_bfs.{}regs", C::NAME, nregs);
     if !ctx.selected(&sub) {
         return;
     }
@@ -392,6 +392,12 @@ where
     let mut inits = vec![vec![toy_to_raw::<C>(&g.rep(gen, &l2)), toy_to_raw::<C>(&g.rep(gen, &l1)), toy_to_raw::<C>(&g.rep(g.neg[gen] as usize, &l2))]];
     if let Some(t) = t3 {
         inits.push(vec![toy_to_raw::<C>(&g.rep(t, &l2)), toy_to_raw::<C>(&g.rep(t, &l1)), toy_to_raw::<C>(&C::P::zero())]);
+    }
+    for f in inits.iter_mut() {
+        f.truncate(nregs);
+    }
+    if nregs == 2 {
+        inits.push(vec![toy_to_raw::<C>(&g.rep(gen, &l2)), toy_to_raw::<C>(&g.rep(g.neg[gen] as usize, &l1))]);
     }
     let sys = ToyRegs::<C> { g: g.clone(), inits: inits.clone() };
     let res = explore(sys, depth, ctx.threads, false);
@@ -541,11 +547,13 @@ pub fn run(ctx: &Ctx) {
     real_group_law::<RG2>(ctx, &rv2);
     ctx.extra("real alphabets", json!({"G1 points": rv1.pts.iter().map(|p| p.name.clone()).collect::<Vec<_>>(), "G2 points": rv2.pts.iter().map(|p| p.name.clone()).collect::<Vec<_>>(), "G1 projective values": rv1.v.len(), "G2 projective values": rv2.v.len()}));
     // register files
-    toy_bfs::<T7_2>(ctx, None);
+    // complete reachable state spaces: 3 registers over F_7, 2 registers over F_19; 3 registers over F_19 depth-bounded
+    toy_bfs::<T7_2>(ctx, None, 3);
     if ctx.quick() {
-        toy_bfs::<T19_4>(ctx, Some(4));
+        toy_bfs::<T19_4>(ctx, Some(4), 3);
     } else {
-        toy_bfs::<T19_4>(ctx, None);
+        toy_bfs::<T19_4>(ctx, None, 2);
+        toy_bfs::<T19_4>(ctx, Some(6), 3);
     }
     real_bfs::<RG1>(ctx, &rv1, ctx.tier.pick(3, 4));
     real_bfs::<RG2>(ctx, &rv2, ctx.tier.pick(2, 3));
